@@ -28,6 +28,7 @@ EXPLANATION = (
     ' Round 4: (D7) the embedding entry points (apply, lifted_matrix, the lifting twins) as decided by C01-D5; no matrix is widened by an identity factor on the left (qubit 0 is the leftmost Kronecker factor).'
     ' Round 5: (D8) exact expectation values are expectation(get_sparse_operator(op, width), state) on every exit (C09-D4); the bit-order tracer follows map(tuple, ...).'
     ' Round 6: bits decoded from a drawn amplitude index -- tuple((i >> E(q)) & 1 for q in range(n)) -- carry a reversal iff E increases with q (D1); (D9) stale loop variables.'
+    ' Round 7: a top-level early exit with its own draw is traced as one more sampling path (D1); (D10) query methods of Wavefunction remember nothing on the receiver.'
 )
 RULE_TEXT = "instances = conversion functions (parity each), conversion paths (sum of parities), call-edge and alignment obligations; distinct by (rule, function/path)"
 ASSUMPTIONS = [
